@@ -74,6 +74,30 @@ def duplicate_typed_case(item):
     return dict(ok=True)
 
 
+def concat_sparse_case(item):
+    """concatenate over rows that spell a null as an ABSENT key (what results() and the dumpers read as a null): every row is mapped by
+    ITS OWN keys - a value under a key the first row of its resource lacks is not lost"""
+    import dataflows as DF
+    from dataflows import Flow
+    from ..common import tuple_source
+    setup_repo()
+    k = item['k']            # which row of the first resource lacks the key 'c'
+    r1 = [dict(a=10 + i, c=100 + i) for i in range(4)]
+    del r1[k]['c']
+    r2 = [dict(a=20 + i, b=200 + i) for i in range(2)]
+    try:
+        with contextlib.redirect_stdout(io.StringIO()):
+            ds = Flow(tuple_source([('r1', [('a', 'integer'), ('c', 'integer')], [dict(x) for x in r1]), ('r2', [('a', 'integer'), ('b', 'integer')], [dict(x) for x in r2])]),
+                      DF.concatenate(dict(a=[], b=['c']), target=dict(name='cc'))).datastream()
+            out = [[dict(r) for r in res] for res in ds.res_iter]
+    except Exception as e:
+        return dict(ok=False, why='raised %s: %s' % (type(e).__name__, str(e)[:150]))
+    want = [dict(a=x['a'], b=x.get('c')) for x in r1] + [dict(a=x['a'], b=x['b']) for x in r2]
+    if out != [want]:
+        return dict(ok=False, why='concatenate over rows with absent keys differs', got=out[0][:6] if out else None, want=want[:6])
+    return dict(ok=True)
+
+
 def sources_named_case(item):
     """sources() whose source brings NAMED resources: one whose name is the very name the step would generate next, and one that collides
     with an existing resource - the combined package has unique names, every resource keeps its own descriptor and rows, and later
@@ -447,6 +471,12 @@ def run():
         rep.mark_distinct(it)
         if not out['ok']:
             rep.violation(it, dict(case=it, **{k: v for k, v in out.items() if k != 'ok'}), category='duplicate-typed/%s' % out['why'][:40])
+    for it in [dict(concat_sparse=True, k=k) for k in (0, 1, 3)]:
+        out = concat_sparse_case(it)
+        rep.count(1, traces=1)
+        rep.mark_distinct(it)
+        if not out['ok']:
+            rep.violation(it, dict(case=it, **{k_: v for k_, v in out.items() if k_ != 'ok'}), category='concatenate-sparse/%s' % out['why'][:40])
     for it in [dict(sources_named=True, n=n) for n in (1, 2, 3, 4)]:
         out = sources_named_case(it)
         rep.count(1, traces=1)
@@ -502,7 +532,7 @@ def replay(path):
     setup_repo()
     rec = json.load(open(path))
     c = rec['case']
-    out = (duplicate_typed_case(c) if c.get('duplicate_typed') else sources_named_case(c) if c.get('sources_named') else replay_case(c) if 'case' in c else twin_case(c['twin']) if 'twin' in c else rename_case(c) if 'follow' in c
+    out = (concat_sparse_case(c) if c.get('concat_sparse') else duplicate_typed_case(c) if c.get('duplicate_typed') else sources_named_case(c) if c.get('sources_named') else replay_case(c) if 'case' in c else twin_case(c['twin']) if 'twin' in c else rename_case(c) if 'follow' in c
            else sources_case(c) if 'k' in c else after_delete_case(c))
     print(json.dumps(out, default=str)[:1500])
     if not out['ok']:
